@@ -135,11 +135,13 @@ class Controller:
                 orig_call = loss._call
 
                 def _call(*a, **k):
+                    # the draws of a stochastic objective are a function of the values it is evaluated
+                    # at (not of how many times it has been called: a resumed run evaluates it once
+                    # more, for its first progress line, than the uninterrupted run does at that point)
                     purpose = "conv" if "samples" in k else "loss"
                     key = (ctl.position, purpose)
-                    n = ctl.loss_calls.get(key, 0)
-                    ctl.loss_calls[key] = n + 1
-                    ctl.reseed("objective", ctl.position, purpose, n)
+                    ctl.loss_calls[key] = ctl.loss_calls.get(key, 0) + 1
+                    ctl.reseed("objective", purpose, sorted(ctl.params_digest(algo).items()))
                     return orig_call(*a, **k)
 
                 loss._call = _call
@@ -490,6 +492,11 @@ def scene_recipes(tier, seed, scale):
     out.append({"kind": "toy_mcmc", "operators": ["scaler", "sliding", "dirichlet"], "iterations": 24, "freq": 6, "dup_op": True})
     out.append({"kind": "toy_mcmc", "operators": ["sliding", "hmc-adaptive", "scaler"], "iterations": 18, "freq": 5, "dup_op": True})
     out.append({"kind": "toy_mcmc", "operators": ["hmc-mass-adaptive"], "iterations": 12, "freq": 4, "find_step_size": True})
+    # ADVI with a normalizing flow (weights of torch modules are the optimised parameters); LBFGS on a stochastic objective
+    out.append({"kind": "toy_opt", "algorithm": "Adam", "scheduler": "StepLR", "loss": "flow", "iterations": 9, "freq": 3, "param_dtype": "default"})
+    out.append({"kind": "toy_opt", "algorithm": "SGD-momentum", "scheduler": "none", "loss": "flow", "iterations": 8, "freq": 3, "param_dtype": "torch.float32", "dtype": "float32"})
+    out.append({"kind": "toy_opt", "algorithm": "LBFGS", "scheduler": "none", "loss": "flow", "iterations": 6, "freq": 2, "param_dtype": "default"})
+    out.append({"kind": "toy_opt", "algorithm": "LBFGS", "scheduler": "none", "loss": "ELBO", "samples": 2, "iterations": 6, "freq": 2, "param_dtype": "default"})
     # configurations the CLI emits
     clis = [
         ("mcmc", ["--clock", "strict", "--coalescent", "constant"], 60, 20),
